@@ -22,7 +22,8 @@
 (*             sub-tables), and lookups at indices congruent mod 2^8, each *)
 (*             activated by a feature of its own; shaping with every       *)
 (*             single feature and with all of them, as a mask and as a     *)
-(*             custom feature list                                         *)
+(*             custom feature list, under the default language system and  *)
+(*             under a second one that has only some of the features       *)
 (* The layout of the collide fonts is part of the CASE: the harness builds *)
 (* the bytes from it.                                                      *)
 (***************************************************************************)
@@ -55,12 +56,14 @@ DmgFonts    == {DmgFont(<<k>>) : k \in Kinds}
 \* Layout of one layout table of a collide font.  Sub-tables of `single` lookups keep their Coverage
 \* 8 bytes in; `class` lookups (GSUB: ContextSubst format 2 naming lookup 6; GPOS: PairPos format 2)
 \* keep their Coverage 32 and their ClassDef 64 bytes in.  Positions: X, X + 256, X + 65536.
+\* the features of the second language system ("l2"; "l1" is the default one, which has them all)
+L2Feats == {"dlig", "rlig", "smcp"}
 Obj(kind, sub, rel, content) == [kind |-> kind, pos |-> sub + rel, rel |-> rel, content |-> content]
 Single(tbl, idx, feat, sub, content) ==
-  [tbl |-> tbl, idx |-> idx, feat |-> feat, typ |-> "single", ext |-> sub >= 65536, sub |-> sub,
+  [tbl |-> tbl, idx |-> idx, feat |-> feat, typ |-> "single", ext |-> sub >= 65536, sub |-> sub, l2 |-> feat \in L2Feats,
    objs |-> <<Obj("cov", sub, 8, content)>>, nested |-> <<>>]
 Class(tbl, idx, feat, sub, content) ==
-  [tbl |-> tbl, idx |-> idx, feat |-> feat, typ |-> "class", ext |-> sub >= 65536, sub |-> sub,
+  [tbl |-> tbl, idx |-> idx, feat |-> feat, typ |-> "class", ext |-> sub >= 65536, sub |-> sub, l2 |-> feat \in L2Feats,
    objs |-> <<Obj("cov", sub, 32, IF tbl = "GSUB" THEN "EFG" ELSE "X"), Obj("cls", sub, 64, content)>>,
    nested |-> IF tbl = "GSUB" THEN <<6>> ELSE <<>>]
 Layout(tbl) ==
@@ -82,9 +85,10 @@ Fonts == (IF "intact" \in Families THEN {PlainFont} ELSE {})
          \cup (IF "collide" \in Families THEN CollideFonts ELSE {})
 
 \* ---- calls ----------------------------------------------------------------
-ShapeCall(s, m, t, custom, feats) ==
-  [op |-> "Shape", text |-> "w1", script |-> s, lang |-> "l1", mask |-> m, tuple |-> t, kern |-> TRUE,
+ShapeCallL(s, l, m, t, custom, feats) ==
+  [op |-> "Shape", text |-> "w1", script |-> s, lang |-> l, mask |-> m, tuple |-> t, kern |-> TRUE,
    custom |-> custom, feats |-> feats]
+ShapeCall(s, m, t, custom, feats) == ShapeCallL(s, "l1", m, t, custom, feats)
 TableCalls == {[op |-> "Table", k |-> k] : k \in TableKinds}
 
 IntactCalls ==
@@ -107,6 +111,9 @@ AllFeats     == <<"calt", "clig", "dlig", "hlig", "liga", "rlig", "smcp">>
 CollideCalls ==
        {ShapeCall("s1", f, "none", cu, <<f>>) : f \in CollideFeats, cu \in BOOLEAN}
   \cup {ShapeCall("s1", "all", "none", cu, AllFeats) : cu \in BOOLEAN}
+  \* under the second language system only its own features are in force
+  \cup {ShapeCallL("s1", "l2", f, "none", cu, IF f \in L2Feats THEN <<f>> ELSE <<>>) : f \in {"liga", "dlig"}, cu \in BOOLEAN}
+  \cup {ShapeCallL("s1", "l2", "all", "none", cu, SelectSeq(AllFeats, LAMBDA f : f \in L2Feats)) : cu \in BOOLEAN}
 
 \* calls that extend a history / calls probed after it
 PathCalls(font) == CASE font.fam = "intact"  -> IntactCalls
